@@ -104,6 +104,10 @@ def check_remote(ctx):
         nm = ld.fi.name
         lits = {'url': ld.url, 'filename': ld.filename, 'checksum': ld.checksum, 'dataset_filename': ld.dataset_filename, 'dataset_folder': ld.dataset_folder}
         missing = [k for k, v in lits.items() if not v]
+        if missing and not ld.problems:
+            # the file description is computed in a way the evaluator does not resolve to literals: which file the loader names is not known
+            ctx.unknown('C18.3', f"{nm}: literal descriptor", f"not resolved to literals: {missing}", ld.fi.loc(), q, f"desc:{nm}")
+            continue
         ctx.check(not missing and not ld.problems, 'C18.3', f"{nm}: literal descriptor", f"not literal / missing: {missing} {ld.problems}", ld.fi.loc(), q, f"desc:{nm}")
         if missing:
             continue
